@@ -431,6 +431,14 @@ class World:
                     # the clock is an environment choice of this very step: ("rx", line, epoch, utc_offset)
                     self.epoch, self.utc_offset = ev[2], ev[3]
                 obs.eff_line = self.deliver(ev[1])
+            elif kind == "bytes":
+                # raw bytes into the protocol's framing; ev[2] tells whether the pump runs afterwards
+                self.gw.tasks.transport.protocol.data_received(ev[1])
+                if len(ev) > 2 and not ev[2]:
+                    self._obs = None
+                    return obs
+            elif kind == "drain":
+                pass
             elif kind == "rx2":
                 self.cur_cause = ("rx", ev[1])
                 self.deliver(ev[1])
